@@ -61,6 +61,21 @@ def _det(impl, mb, scale):
     return close(impl, mv, bound) or abs(impl - mv) <= REL * max(abs(mv), abs(impl), scale)
 
 
+def _nonlin(model, params, x):
+    """relative first-order change of a non-linear pre-set model at x under the parameter
+    uncertainties (exponential c*exp(-a x): sigma_a |x|; gaussian: |z| sigma_mean/std +
+    |z^2-1| sigma_std/std with z = (x-mean)/std)"""
+    if model == "exponential":
+        return params[1][1] * abs(x)
+    if model == "gaussian":
+        (m, sm), (sd, ss) = params[1], params[2]
+        if sd == 0:
+            return float("inf")
+        z = (x - m) / sd
+        return (abs(z) * sm + abs(z * z - 1) * ss) / abs(sd)
+    return 0.0
+
+
 def split_model(cmds):
     out = {"main": [], "res": [], "bands": [], "bars": [], "labels": {}, "legend": None}
     for c in cmds:
@@ -275,12 +290,13 @@ def judge(case, o, m):
             else:
                 api = o["api"][oi]
                 err = api["ff"]["errors"][i]
-                # The band is the Monte-Carlo standard deviation; it is comparable with the
-                # first-order uncertainty of fit_function(x) only where the model is (nearly)
-                # linear in the parameters. Sample std of 10000 draws: 6/sqrt(2N) = 4.3 %.
-                linear = ob["model"] in ("linear", "quadratic", "polynomial", "custom") or \
-                    all(e <= 0.02 * abs(v) for v, e in api["params"])
-                if linear and abs(half - err) > 0.10 * err + REL * sc:
+                # The band is the Monte-Carlo standard deviation; it equals the first-order
+                # uncertainty of fit_function(x) up to O(eps^2 |f|), eps = the relative change of f
+                # under the parameter uncertainties (0 for models linear in the parameters; where
+                # the first-order terms nearly cancel the second-order term is all there is).
+                # Sample std of 10000 draws: 6/sqrt(2N) = 4.3 %.
+                eps = _nonlin(ob["model"], api["params"], bnd["xs"][i])
+                if eps <= 0.05 and abs(half - err) > 0.10 * err + 2 * eps * eps * abs(y) + REL * sc:
                     fail("fitband:width", "fit band half-width at x={!r} is {!r}, "
                          "fit_function(x).error is {!r}".format(bnd["xs"][i], half, err), indep=True,
                          impl=half, expected=err, clause="band = y +/- err (statistical)")
@@ -385,6 +401,21 @@ def judge(case, o, m):
                 expected=inside, clause="bin counts of its samples")
             return fails, False
         stats["hist_bins"] += len(rn)
+    # ---------------- Plot.fit applied to a histogram: the curve belongs to the bars that are drawn
+    for oi, ob in enumerate(case["objs"]):
+        if ob["t"] == "fit" and ob.get("on") == "hist" and ob.get("target") is not None:
+            rn, re_ = o["api"][ob["target"]]["returned"]
+            d = o["api"][oi]["data"]
+            cx = [(re_[k] + re_[k + 1]) / 2 for k in range(len(re_) - 1)]
+            hsc = max([abs(v) for v in rn] + [1e-300])
+            if len(d["xs"]) != len(cx) or any(not _near(a_, b_, rel=1e-12, scale=abs(re_[-1]))
+                                              for a_, b_ in zip(d["xs"], cx)) or \
+                    any(not _near(a_, b_, scale=hsc) for a_, b_ in zip(d["ys"], rn)):
+                fail("fit-on-hist:data", "object {}: Plot.fit on the histogram (object {}) fitted {} at {} "
+                     "but the bars are {} at the bin centres {}".format(
+                         oi, ob["target"], d["ys"], d["xs"], rn, cx), impl=[d["xs"], d["ys"]],
+                     expected=[cx, rn], clause="a fit of a histogram is a fit of its bars")
+                return fails, False
     # ---------------- labels, legend
     labs = {"x": A["xlabel"], "y": A["ylabel"], "title": A["title"]}
     if R is not None:
